@@ -9,8 +9,9 @@ import (
 )
 
 type G struct {
-	r    *rand.Rand
-	mode string // the property the component is run for (biases the generators)
+	r       *rand.Rand
+	mode    string    // the property the component is run for (biases the generators)
+	recycle *recycler // storage of the previous case's values, reused for the next (match component)
 }
 
 func newG(seed int64) *G { return &G{r: rand.New(rand.NewSource(seed))} }
